@@ -351,6 +351,27 @@ class Ctx:
                     out.append((s_, simplify(IN.subst(e, sub))))
         return out
 
+    def pushes_through(self, body, d):
+        """cx.pushes, following ONE crate-local helper that builds and returns the vector (`let v = helper(args)`): the helper's
+        initial values and in-place writes, re-expressed over the caller's arguments"""
+        from . import inline as IN
+        d = simplify(d)
+        if d[0] == 'call' and isinstance(d[1], str):
+            lst = self.facts.by_short.get(d[1], [])
+            if len(lst) == 1 and lst[0] is not body and len(d) - 2 == lst[0].argc:
+                h = lst[0]
+                args = d[2:]
+
+                def sub(x):
+                    if x[0] == 'param' and 1 <= x[1] <= len(args):
+                        return args[x[1] - 1]
+                    return None
+                inits, elems = self.pushes(h, self.retval(h))
+                self.focus(body)
+                return ([simplify(IN.subst(i, sub)) for i in inits],
+                        [(c, pth, tuple(simplify(IN.subst(a, sub)) if isinstance(a, tuple) else a for a in ar)) for (c, pth, ar) in elems])
+        return self.pushes(body, d)
+
     def returned_locals(self, body):
         """locals whose value is moved/copied into the return place (through whole-local copies), found by role not by name"""
         out = set()
